@@ -19,8 +19,8 @@ Put8(m, off, v) == [i \in 1..Len(m) |-> IF i = off + 1 THEN v ELSE m[i]]
 Bytes8 == {0, 1, 4, 5, 6, 8, 17, 58, 69, 96, 129, 134, 221, 255}
 (* structural mutation: the sampled packet of a raw-header record cut at every length (the sampler's snap length),
    re-encoded consistently (header length, XDR padding, record and sample lengths) *)
-CutPackets == <<Pkt(1, 0, FALSE, "tcp", Extra(0)), Pkt(1, 100, FALSE, "udp", Extra(1)), Pkt(1, 4095, TRUE, "tcp", Extra(2)),
-                Pkt(1, 0, TRUE, "icmp", Extra(3)), Pkt(11, 0, FALSE, "icmp", Extra(1)), Pkt(12, 0, TRUE, "udp", Extra(0)),
+CutPackets == <<Pkt(1, -1, FALSE, "tcp", Extra(0)), Pkt(1, 100, FALSE, "udp", Extra(1)), Pkt(1, 0, FALSE, "udp", Extra(1)), Pkt(1, 4095, TRUE, "tcp", Extra(2)),
+                Pkt(1, -1, TRUE, "icmp", Extra(3)), Pkt(11, 0, FALSE, "icmp", Extra(1)), Pkt(12, 0, TRUE, "udp", Extra(0)),
                 Pkt(11, 0, FALSE, "tcp", Extra(2))>>
 CutDgram(pi, k) == LET pk == CutPackets[pi]
                        rec == [RawRec(pk) EXCEPT !.hdr = SubSeq(pk.o, 1, k)] IN
